@@ -131,6 +131,7 @@ type explorer struct {
 	choices  map[string]string
 	spec     int // >0 while a pure region is evaluated speculatively
 	allowOpaqueCut bool
+	fmtSawSymbolic bool
 	chanSeq  int
 	condSet  map[string]bool
 	prefixKinds []byte
@@ -596,6 +597,8 @@ func (ex *explorer) tryConcretizeSmall(fr *frame, s *symv, signed bool) (v int64
 	var isWide bool
 	if ex.replaying() {
 		isWide = ex.prefix[ex.pos] != 0
+	} else if s.bits <= 16 {
+		isWide = false // every value of a type this narrow lies within the range
 	} else {
 		var wide string
 		if signed {
